@@ -25,6 +25,7 @@ _PROMOTED_RX = _re.compile(r'promoted\[(\d+)\]$')
 PROMOTED = {}          # def path of a promoted body -> Body (filled by core.Facts)
 BODIES = {}            # def path -> Body of every workspace body (filled by core.Facts); used for opt-in inlining
 CLOSURE_FIELDS = {}    # closure def path -> {capture field name: index into the captures tuple}
+ADTS = {}              # def path -> ADT record of every workspace enum / struct (filled by core.Facts)
 _PROMOTED_CACHE = {}
 
 
@@ -614,6 +615,8 @@ class SymEx:
                     else:
                         val = ('adt', 'std::option::Option', 'None', (), ())
                         st.write(args[0][1][0], args[0][1][1], it)
+                if lastn in ('is_some', 'is_none') and 'option::Option' in name and len(args) == 1 and strip_refs(args[0])[0] == 'adt' and strip_refs(args[0])[2] in ('Some', 'None'):
+                    val = ('const', int((strip_refs(args[0])[2] == 'Some') == (lastn == 'is_some')))
                 if gen.endswith('ops::Try::branch') and len(args) == 1 and (t.get('dest_ty') or '').startswith('std::ops::ControlFlow<std::option::Option<'):
                     val = ('tryopt', args[0])
                 elif gen.endswith('FromResidual::from_residual') and len(args) == 1 and args[0] == ('residual_none',):
@@ -631,6 +634,10 @@ class SymEx:
                 c = self.operand(st, t['discr'])
                 c = _known_cmp(st, c)
                 targets = t['targets']
+                if c[0] == 'discr' and strip_refs(c[1])[0] == 'adt':
+                    dv = adt_discr(strip_refs(c[1]))      # a match on a literal enum value takes one arm
+                    if dv is not None:
+                        c = ('const', dv)
                 if c[0] == 'discr' and c[1][0] == 'tryopt':
                     # Continue (0) <=> Some (1); Break (1) <=> None (0)
                     c = ('discr', c[1][1])
@@ -682,6 +689,36 @@ class SymEx:
                 self.paths.append(Path(st, 'cut', None))
                 return
             bb = b2
+
+
+_STD_DISCR = {('Option', 'None'): 0, ('Option', 'Some'): 1, ('Result', 'Ok'): 0, ('Result', 'Err'): 1,
+              ('Ordering', 'Less'): 255, ('Ordering', 'Equal'): 0, ('Ordering', 'Greater'): 1,
+              ('ControlFlow', 'Continue'): 0, ('ControlFlow', 'Break'): 1}
+
+
+def adt_discr(t):
+    """discriminant of a literal enum value ('adt', path, variant, ..), as the switch sees it (None if unknown)"""
+    if t[0] != 'adt' or t[2] is None:
+        return None
+    k = (t[1].split('::')[-1], t[2])
+    if t[1].startswith(('std::', 'core::')) and k in _STD_DISCR:
+        return _STD_DISCR[k]
+    a = ADTS.get(t[1])
+    if a and a.get('kind') == 'Enum':
+        for i, v in enumerate(a['variants']):
+            if v['name'] == t[2]:
+                try:
+                    d = int(v.get('discr', i))
+                except (TypeError, ValueError):
+                    return None
+                return d if d >= 0 else d + 256
+    return None
+
+
+def strip_refs(t):
+    while t[0] in ('ref', 'deref'):
+        t = t[1]
+    return t
 
 
 def _known_cmp(st, c):
@@ -806,8 +843,11 @@ def mentioned_names():
     return _MENTIONED
 
 
+NO_INLINE = set()     # def paths a rule has identified as its own subject (found by shape, not by name)
+
+
 def unmentioned_private_helper(cb, call):
-    if cb.kind not in ('Fn', 'AssocFn'):
+    if cb.kind not in ('Fn', 'AssocFn') or cb.defp in NO_INLINE:
         return False
     if cb.d.get('vis', 'pub') == 'pub' or (cb.impl and cb.impl.get('trait')):
         return False
